@@ -154,6 +154,7 @@ class Walker(object):
                     n_paths += 1
                 for label, tk in outs:
                     if budget is not None and self.steps >= budget:
+                        self.ctx.traces += n_paths
                         return n_paths, False
                     w = self.a.clone(world)
                     if self._do(w, hist, label, tk):
